@@ -10,6 +10,7 @@ from scipy.special import ndtr, ndtri
 
 import common
 from common import HarnessError, Sub, Violation, lib, require
+import gens
 from gens import logfloat
 
 import gstools as gs
@@ -20,14 +21,17 @@ ID = "C19"
 LEVEL = "exploration"
 RULE = (
     "Hypothesis draws (transformation, input mean/variance, explicit or sample moments, default/explicit/one-sided "
-    "bounds, values and thresholds as list/ndarray/'arithmetic'/'equal', inputs = midpoint quantile grid of N(mean,var) "
-    "plus drawn extreme z values and values planted exactly on / one ulp around thresholds; for wrappers: entry point "
-    "(Field.transform / transform.apply / transform.<fn>), method alias, mesh type, constant or position-dependent mean, "
-    "trend, Normalizer/LogNormal, process, keep_mean, store name, source field name; for the sampled complement: SRF model, "
-    "nugget, seeds). Oracles: mpmath push-forward ppf(Phi((x-mean)/sd)), quadrature of the moments, mpmath Zinn-Harvey "
-    "formula, exact (fsum) sample moments, threshold counting model, own pre/post-processing. Non-trivial: (mean,var) != "
-    "(0,1) or non-default bounds/values for array transforms, >=3 classes for discrete, process=True with non-zero mean "
-    "or a stored name for wrappers; distinct by hash of the rounded case."
+    "bounds, values and thresholds as list/tuple/ndarray/'arithmetic'/'equal', inputs = midpoint quantile grid of N(mean,var) "
+    "plus drawn extreme z values and values planted exactly on / one ulp around thresholds). Wrapper cases draw "
+    "(transformation + keywords, mesh type, constant and position-dependent mean, trend, Normalizer/LogNormal, store name, "
+    "source field name, method alias) and are each executed with process off / process+keep_mean / process without keep_mean "
+    "through rotating entry points (Field.transform, transform.apply, transform.<fn>). Sampled cases draw an SRF model (class, "
+    "var, nugget, len_scale, mean, trend, process mode, seeds) and apply every transformation to each of 160/320 seeded "
+    "realisations. Oracles: mpmath push-forward ppf(Phi((x-mean)/sd)), Gauss quadrature of the moments, mpmath Zinn-Harvey "
+    "formula, exact sample moments, threshold-counting class model, own pre/post-processing, z-tests (|z|<=7 + confirmation) "
+    "of bounded statistics. Non-trivial: (mean,var) != (0,1) or non-default bounds/values for array transforms, >=3 classes "
+    "for discrete, explicit divide/upper/lower or process with non-zero mean for binary, non-zero mean under process / named "
+    "store / explicit keywords for wrappers, non-unit law or nugget for sampled cases; distinct by hash of the rounded case."
 )
 ASSUMPTIONS = [
     "mpmath ncdf/erfinv/exp/sin/cbrt at 30 digits are exact for the purpose; scipy.special.ndtri/ndtr only build inputs and the KS statistic",
@@ -141,6 +145,18 @@ def sample_moments(x):
 
 # ---------------------------------------------------------------------------
 # shared strategies
+
+
+def _pick(options):
+    """Near-uniform choice among configurations.
+
+    Hypothesis' own sampled_from left whole (transformation, process) cells empty in
+    600 examples (it re-uses earlier choices); scrambling a wide integer draw
+    spreads the examples over all cells.  Still a pure function of the draw.
+    """
+    opts = list(options)
+    return st.integers(0, 2**31 - 1).map(lambda u: opts[((u * 2654435761) >> 11) % len(opts)])
+
 
 Z_SPECIAL = [0.0, 1e-8, -1e-8, 1.0, -1.0, 3.0, -3.0, 6.0, -6.0, 8.3, -8.3]
 
@@ -445,6 +461,11 @@ def check_zh(case, rec):
             az = abs((mpf(xi) - m) / s)
             w = _zh_oracle(az)
             want = m + sign * s * w
+            if mpmath.isinf(w) and case["moments"] == "sample":
+                # x equals the exact sample mean; np.mean may differ by an ulp, which
+                # moves the value off the singularity: a float tie, not comparable
+                rec.label("zh:illconditioned_point_skipped")
+                continue
             if mpmath.isinf(w):
                 require(oi == float(want), f"zinnharvey: T({xi!r}) = {oi!r}, want {float(want)}", dict(tags, kind="formula"))
                 continue
@@ -546,10 +567,12 @@ def check_force(case, rec):
             return
         # deviations x - mean_in carry eps*max|x| -> relative eps*max|x|/sd_in in the
         # output deviations (twice that in the variance); 1e-12 is the design budget
+        # ... and the outputs are rounded relative to |mean| + sd, seen relative to sd
         cond = float(np.max(np.abs(x))) / float(si)
         sd_t = math.sqrt(var)
+        cond_out = (abs(mean) + sd_t) / sd_t
         tol_m = 1e-12 * (abs(mean) + sd_t) + 8 * EPS * cond * sd_t
-        tol_v = (1e-12 + 16 * EPS * cond) * var
+        tol_v = (1e-12 + 16 * EPS * (cond + cond_out)) * var
         em, ev = float(abs(mo - mean)), float(abs(vo - var))
         rec.discrepancy("force_mean", em, tol_m)
         rec.discrepancy("force_var", ev, tol_v)
@@ -994,13 +1017,14 @@ def _affine(data, fac=1.0, off=0.0):
 
 
 @st.composite
-def _tparams(draw, kind, mean_arg, sill, narrow=False):
-    """Keyword arguments of a transformation, scaled to N(mean_arg, sill).
+def _tparams(draw, kind, narrow=False):
+    """Keyword arguments of a transformation; positions that should sit on the
+    scale of the field (dividing value, thresholds, arithmetic values) are stored
+    in z units and resolved against N(mean_arg, sill) by :func:`_resolve`.
 
     narrow: keep outputs within about [-8, 8] so that exp(.) + trend of a
     LogNormal post-processing can be inverted accurately by the sampled check.
     """
-    sd = math.sqrt(sill)
     cmax, wmax, vmax = (3.0, 6.0, 5.0) if narrow else (10.0, 1e2, 100.0)
     if kind == "uniform":
         if draw(st.booleans()):
@@ -1024,16 +1048,12 @@ def _tparams(draw, kind, mean_arg, sill, narrow=False):
         mode = draw(st.sampled_from(["arithmetic", "default", "equal", "list", "ndarray"]))
         out = {"values": draw(_distinct(n, lo=-10, hi=10)), "mode": mode}
         if mode in ("list", "ndarray"):
-            zs = draw(_distinct(n - 1, lo=-2.0, hi=0.0, sorted_=True))
-            out["thr"] = [float(mean_arg + sd * (z - zs[0] - 1.0) / 2) for z in zs]
-        if mode == "arithmetic" or mode == "default":
-            # put the values on the scale of the field so that several classes occur
-            out["values"] = [float(mean_arg + sd * v / 5) for v in out["values"]]
+            out["thr_z"] = draw(_distinct(n - 1, lo=-2.0, hi=0.0, sorted_=True))
         return out
     if kind == "binary":
         out = {}
         if draw(st.booleans()):
-            out["divide"] = float(mean_arg + sd * draw(st.floats(-2, 2)))
+            out["divide_z"] = float(draw(st.floats(-2, 2)))
         if draw(st.booleans()):
             out["upper"] = float(draw(st.floats(-vmax, vmax)))
         if draw(st.booleans()):
@@ -1044,17 +1064,34 @@ def _tparams(draw, kind, mean_arg, sill, narrow=False):
     return {}
 
 
+def _resolve(kind, prm, mean_arg, sill):
+    """Concrete keyword values for a field with law N(mean_arg, sill)."""
+    sd = math.sqrt(sill)
+    out = dict(prm)
+    if kind == "binary" and "divide_z" in out:
+        out["divide"] = float(mean_arg + sd * out.pop("divide_z"))
+    if kind == "discrete":
+        if "thr_z" in out:
+            zs = out.pop("thr_z")
+            out["thr"] = [float(mean_arg + sd * (z - zs[0] - 1.0) / 2) for z in zs]
+        if out["mode"] in ("arithmetic", "default"):
+            # put the values on the scale of the field so that several classes occur
+            out["values"] = [float(mean_arg + sd * v / 5) for v in out["values"]]
+    return out
+
+
 def _lin(dim):
     return st.lists(st.floats(-1, 1), min_size=dim + 1, max_size=dim + 1)
 
 
 @st.composite
 def gen_wrapper(draw, tier="quick"):
+    # every case is run with process off / keep_mean / no keep_mean (see check_wrapper):
+    # separately drawn flags left whole (transformation, process) cells empty
     kind = draw(st.sampled_from(WRAP_KINDS))
-    proc = draw(st.sampled_from(["off", "keep", "nokeep", "nokeep"]))
     dim = draw(st.sampled_from([1, 2]))
     mesh = draw(st.sampled_from(["unstructured", "structured"])) if dim == 2 else "unstructured"
-    case = {"kind": kind, "proc": proc, "dim": dim, "mesh": mesh}
+    case = {"kind": kind, "dim": dim, "mesh": mesh}
     if mesh == "structured":
         case["axes"] = [
             draw(st.lists(st.floats(-10, 10), min_size=k, max_size=k))
@@ -1066,32 +1103,22 @@ def gen_wrapper(draw, tier="quick"):
         case["pos"] = [draw(st.lists(st.floats(-10, 10), min_size=npts, max_size=npts)) for _ in range(dim)]
     case["var"] = float(draw(st.one_of(st.just(1.0), logfloat(0.05, 4.0))))
     case["nugget"] = float(draw(st.one_of(st.just(0.0), logfloat(0.05, 2.0))))
-    sill = case["var"] + case["nugget"]
-    # what the field documents about itself
-    plain_needed = proc == "off" and (
-        kind in NEEDS_MEAN or kind == "binary" or kind == "discrete"
-    )  # (binary/discrete only need it for defaults / "equal"; keep the field plain there as well)
-    mean_c = float(draw(st.one_of(st.just(0.0), st.floats(-2, 2), st.sampled_from([1.0, -1.5]))))
-    case["mean"] = {"kind": "const", "c": mean_c}
-    if proc == "nokeep" and draw(st.booleans()):
-        case["mean"] = {"kind": "lin", "c": draw(_lin(dim))}
-    if plain_needed:
-        case["normalizer"], case["trend"] = "none", None
-    else:
-        case["normalizer"] = draw(st.sampled_from(["none", "lognormal"]))
-        case["trend"] = draw(
-            st.one_of(
-                st.none(),
-                st.floats(-2, 2).map(lambda c: {"kind": "const", "c": float(c)}),
-                _lin(dim).map(lambda c: {"kind": "lin", "c": c}),
-            )
+    case["mean_c"] = float(draw(st.one_of(st.just(0.0), st.floats(-2, 2), st.sampled_from([1.0, -1.5]))))
+    # position dependent mean: only valid with process=True, keep_mean=False
+    case["mean_lin"] = draw(st.one_of(st.none(), _lin(dim)))
+    case["normalizer"] = draw(st.sampled_from(["none", "lognormal"]))
+    case["trend"] = draw(
+        st.one_of(
+            st.none(),
+            st.floats(-2, 2).map(lambda c: {"kind": "const", "c": float(c)}),
+            _lin(dim).map(lambda c: {"kind": "lin", "c": c}),
         )
-    mean_arg = 0.0 if proc == "nokeep" else mean_c
-    case["params"] = draw(_tparams(kind, mean_arg, sill))
+    )
+    case["params"] = draw(_tparams(kind))
     case["z"] = draw(st.lists(st.floats(-4, 4), min_size=npts, max_size=npts))
     case["src"] = draw(st.sampled_from(["field", "field", "raw"]))
     case["store"] = draw(st.sampled_from([True, True, False, "out", "field", "raw2"]))
-    case["entry"] = draw(st.sampled_from(["method", "apply", "func"]))
+    case["entry0"] = draw(st.integers(0, 2))
     case["alias"] = draw(st.integers(0, 2))
     return case
 
@@ -1139,7 +1166,29 @@ def _norm_fns(name):
     return (lambda d: d), (lambda d: d)
 
 
+ENTRIES = ["method", "apply", "func"]
+
+
 def check_wrapper(case, rec):
+    """Run the drawn configuration with each processing mode and a rotating entry point."""
+    kind = case["kind"]
+    sill = case["var"] + case["nugget"]
+    for i, proc in enumerate(("off", "keep", "nokeep")):
+        sub = dict(case, proc=proc, entry=ENTRIES[(case["entry0"] + i) % 3])
+        sub["mean"] = {"kind": "const", "c": case["mean_c"]}
+        if proc == "nokeep" and case["mean_lin"] is not None:
+            sub["mean"] = {"kind": "lin", "c": case["mean_lin"]}
+        # without processing the documented precondition is a plain normal field
+        # (no normalizer, no trend, constant mean) for everything that uses the mean;
+        # binary/discrete need it for their defaults / "equal" only, kept plain as well
+        if proc == "off" and (kind in NEEDS_MEAN or kind in ("binary", "discrete")):
+            sub["normalizer"], sub["trend"] = "none", None
+        mean_arg = 0.0 if proc == "nokeep" else case["mean_c"]
+        sub["params"] = _resolve(kind, case["params"], mean_arg, sill)
+        _check_wrapper_one(sub, rec)
+
+
+def _check_wrapper_one(case, rec):
     kind, proc = case["kind"], case["proc"]
     process, keep_mean = proc != "off", proc != "nokeep"
     tags = {"transform": kind, "proc": proc, "entry": case["entry"], "normalizer": case["normalizer"], "kind": "wrapper"}
@@ -1264,9 +1313,9 @@ def check_wrapper(case, rec):
     with np.errstate(all="ignore"):
         tol = 1e-12 * (np.abs(r) + np.abs(T) + np.abs(M) + 1e-300)
     both_nan = np.isnan(out) & np.isnan(r)
-    same_inf = np.isinf(r) & (out == r)
+    fin_r = np.isfinite(r)
     with np.errstate(all="ignore"):
-        bad = ~(np.abs(out - r) <= tol) & ~both_nan & ~same_inf
+        bad = np.where(fin_r, ~(np.abs(out - r) <= tol), ~((out == r) | both_nan))
     if kind == "discrete" and np.any(tie):
         rec.exclude("wrap:float_tie_with_computed_threshold")
         bad &= ~tie
@@ -1310,51 +1359,130 @@ Z_MAX = 7.0
 
 @st.composite
 def gen_stat(draw, tier="quick"):
-    kind = draw(st.sampled_from(STAT_KINDS))
-    proc = draw(st.sampled_from(["off", "off", "keep", "nokeep"]))
+    # one SRF configuration; every transformation is applied to each realisation
     case = {
-        "kind": kind,
-        "proc": proc,
+        "proc": draw(st.sampled_from(["off", "keep", "nokeep"])),
         "cls": draw(st.sampled_from(["Gaussian", "Exponential"])),
         "len_scale": float(draw(logfloat(0.3, 5.0))),
         "nugget": float(draw(st.one_of(st.just(0.0), logfloat(0.05, 0.5)))),
+        "mean": float(draw(st.one_of(st.just(0.0), st.floats(-1, 1)))),
+        "var": float(draw(st.one_of(st.just(1.0), logfloat(0.1, 1.0)))),
+        "trend": float(draw(st.floats(-2, 2))),
         "seed": draw(st.integers(0, 2**30)),
         "seed2": draw(st.integers(0, 2**30)),
         "nseeds": 160 if tier == "quick" else 320,
-        "pos": [draw(st.lists(st.floats(-50, 50), min_size=4, max_size=4)) for _ in range(2)],
-        "entry": draw(st.sampled_from(["method", "func"])),
+        # four points, pairwise >= 5 apart (distinct values within one realisation)
+        "pos": draw(gens.separated_points(2, n_min=4, n_max=4, box=50.0, min_sep=5.0)),
+        "entry0": draw(st.integers(0, 1)),
+        "params": {},
     }
-    if kind == "boxcox":
-        # keep lmbda*(x+shift)+1 > 0 with overwhelming probability
-        case["mean"] = float(draw(st.floats(3, 5)))
-        case["var"] = float(draw(logfloat(0.05, 0.3)))
-        case["nugget"] = min(case["nugget"], 0.1)
-    else:
-        case["mean"] = float(draw(st.one_of(st.just(0.0), st.floats(-1, 1))))
-        case["var"] = float(draw(st.one_of(st.just(1.0), logfloat(0.1, 1.0))))
-    case["trend"] = float(draw(st.floats(-2, 2))) if proc != "off" else None
-    sill = case["var"] + case["nugget"]
-    mean_arg = 0.0 if proc == "nokeep" else case["mean"]
-    if kind == "boxcox":
-        case["params"] = {"lmbda": draw(st.sampled_from([0.0, 0.5, 1.0])), "shift": float(draw(st.floats(0, 1)))}
-    elif kind == "discrete":
-        prm = draw(_tparams("discrete", mean_arg, sill, narrow=True).filter(lambda p: p["mode"] != "ndarray" or len(p["values"]) == 2))
-        case["params"] = prm
-    elif kind == "force_moments":
-        case["params"] = {}
-        case["pos"] = [draw(st.lists(st.floats(-50, 50), min_size=40, max_size=40)) for _ in range(2)]
-        case["nseeds"] = 4
-    else:
-        case["params"] = draw(_tparams(kind, mean_arg, sill, narrow=True))
+    for kind in STAT_KINDS:
+        if kind == "boxcox":
+            prm = {"lmbda": draw(st.sampled_from([0.0, 0.5, 1.0])), "shift_rel": float(draw(st.floats(0, 1)))}
+        elif kind == "discrete":
+            prm = draw(_tparams("discrete", narrow=True).filter(lambda p: p["mode"] != "ndarray" or len(p["values"]) == 2))
+        else:
+            prm = draw(_tparams(kind, narrow=True))
+        case["params"][kind] = prm
     return case
 
 
-def _stat_run(case, seed0, nseeds, tags):
-    """Per-seed statistics (nseeds, K) plus their H0 means and variances."""
-    kind, proc = case["kind"], case["proc"]
+class _Plan:
+    """Library keywords, null-hypothesis moments and the map output -> statistics for one transformation."""
+
+    def __init__(self, kind, prm, mean_arg, sill):
+        self.kind = kind
+        sd = math.sqrt(sill)
+        prm = _resolve(kind, prm, mean_arg, sill)
+        self.lkw = dict(prm)
+        self.levels = None
+        self.h0_mean = np.array([0.5, 1 / 12, 0.25])
+        self.h0_var = np.array([1 / 12, 1 / 180, 3 / 16])
+        if kind == "boxcox":
+            lam = prm["lmbda"]
+            # shift chosen so that lmbda*(x+shift)+1 > 0 for |z| < 8: nothing is cut off
+            shift = prm["shift_rel"] - mean_arg + (8 * sd if lam != 0 else 0.0)
+            self.lkw = {"lmbda": lam, "shift": shift}
+            self.to_u = lambda t: ndtr(((np.log(t) if lam == 0 else (t**lam - 1) / lam) - shift - mean_arg) / sd)
+        elif kind == "discrete":
+            vals = [float(v) for v in prm["values"]]
+            n, mode = len(vals), prm["mode"]
+            if mode in ("arithmetic", "default"):
+                eff = sorted(vals)
+                thr = [(eff[i] + eff[i + 1]) / 2 for i in range(n - 1)]
+                self.lkw = {"values": vals}
+                if mode == "arithmetic":
+                    self.lkw["thresholds"] = "arithmetic"
+            elif mode == "equal":
+                eff, thr = vals, [mean_arg + sd * float(ndtri(k / n)) for k in range(1, n)]
+                self.lkw = {"values": vals, "thresholds": "equal"}
+            else:
+                eff, thr = vals, list(prm["thr"])
+                self.lkw = {"values": vals, "thresholds": thr if mode == "list" else np.array(thr)}
+            cdf = [0.0] + [float(ndtr((t - mean_arg) / sd)) for t in thr] + [1.0]
+            pk = np.diff(cdf)
+            self.h0_mean, self.h0_var = pk, pk * (1 - pk)
+            self.levels = np.array(eff, dtype=float)
+        elif kind == "binary":
+            divide = prm.get("divide", mean_arg)
+            upper = prm.get("upper", mean_arg + sd)
+            lower = prm.get("lower", mean_arg - sd)
+            p = float(ndtr((divide - mean_arg) / sd))
+            self.h0_mean, self.h0_var = np.array([p, 1 - p]), np.array([p * (1 - p)] * 2)
+            self.levels = np.array([lower, upper], dtype=float)
+        elif kind == "lognormal":
+            self.to_u = lambda t: ndtr((np.log(t) - mean_arg) / sd)
+        elif kind == "zinnharvey":
+            self.to_u = lambda t: ndtr((t - mean_arg) / sd)
+        elif kind == "uniform":
+            lo, hi = prm.get("low", 0.0), prm.get("high", 1.0)
+            self.to_u = lambda t: (t - lo) / (hi - lo)
+        elif kind in ("arcsin", "uquad"):
+            h = float(default_halfwidth(kind, sill))
+            lo, hi = prm.get("a", mean_arg - h), prm.get("b", mean_arg + h)
+            if kind == "arcsin":
+
+                def to_u(t):
+                    u = 2 / np.pi * np.arcsin(np.sqrt(np.clip((t - lo) / (hi - lo), 0, 1)))
+                    return np.where((t < lo - 1e-9 * (hi - lo)) | (t > hi + 1e-9 * (hi - lo)), np.nan, u)
+
+                self.to_u = to_u
+            else:
+                be = (lo + hi) / 2
+                self.to_u = lambda t: 4 / (hi - lo) ** 3 * ((t - be) ** 3 + (be - lo) ** 3)
+        elif kind == "force_moments":
+            self.h0_mean = self.h0_var = None
+
+    def stats(self, t, tags, scale, cond):
+        kind = self.kind
+        if kind == "force_moments":
+            return [float(np.mean(t)), float(np.var(t)), cond]
+        if self.levels is not None:
+            dist = np.abs(t[:, None] - self.levels[None, :])
+            k = np.argmin(dist, axis=1)
+            tol = 1e-9 * (scale + float(np.max(np.abs(self.levels))))
+            if np.min(np.abs(np.diff(np.sort(self.levels)))) < 10 * tol:
+                return None  # classes not distinguishable from the output
+            require(
+                bool(np.all(dist[np.arange(t.size), k] <= tol)),
+                f"{kind} on an SRF field: outputs {t.tolist()} are not among the given values {self.levels.tolist()}",
+                dict(tags, transform=kind, kind="valueset"),
+            )
+            return [float(np.mean(k == j)) for j in range(self.levels.size)]
+        u = self.to_u(t)
+        require(
+            bool(np.all(np.isfinite(u)) and np.all(u >= -1e-9) and np.all(u <= 1 + 1e-9)),
+            f"{kind} on an SRF field: outputs {t.tolist()} outside the support of the documented target",
+            dict(tags, transform=kind, kind="support"),
+        )
+        return [float(np.mean(u)), float(np.mean((u - 0.5) ** 2)), float(np.mean(u < 0.25))]
+
+
+def _stat_run(case, seed0, nseeds, tags, kinds):
+    """{kind: (per-seed statistics (nseeds, K) or None, plan)} on nseeds realisations."""
+    proc = case["proc"]
     process, keep_mean = proc != "off", proc != "nokeep"
     mean, sill = case["mean"], case["var"] + case["nugget"]
-    sd = math.sqrt(sill)
     mean_arg = 0.0 if (process and not keep_mean) else mean
     trend = case["trend"] if process else None
     model = lib(getattr(gs, case["cls"]), dim=2, var=case["var"], len_scale=case["len_scale"], nugget=case["nugget"], _tags=tags)
@@ -1363,97 +1491,38 @@ def _stat_run(case, seed0, nseeds, tags):
         skw.update(normalizer=gs.normalizer.LogNormal(), trend=trend)
     srf = lib(gs.SRF, model, seed=seed0, _tags=tags, **skw)
     pos = np.array(case["pos"], dtype=float)
-    prm = dict(case["params"])
-    lkw = dict(prm)
-    h0_mean = h0_var = None
-    if kind == "discrete":
-        vals = [float(v) for v in prm["values"]]
-        n = len(vals)
-        mode = prm["mode"]
-        if mode in ("arithmetic", "default"):
-            eff = sorted(vals)
-            thr = [(eff[i] + eff[i + 1]) / 2 for i in range(n - 1)]
-            lkw = {"values": vals}
-            if mode == "arithmetic":
-                lkw["thresholds"] = "arithmetic"
-        elif mode == "equal":
-            eff, thr = vals, [mean_arg + sd * float(ndtri(k / n)) for k in range(1, n)]
-            lkw = {"values": vals, "thresholds": "equal"}
-        else:
-            eff, thr = vals, list(prm["thr"])
-            lkw = {"values": vals, "thresholds": thr if mode == "list" else np.array(thr)}
-        cdf = [0.0] + [float(ndtr((t - mean_arg) / sd)) for t in thr] + [1.0]
-        pk = np.diff(cdf)
-        h0_mean, h0_var = pk, pk * (1 - pk)
-        levels = np.array(eff, dtype=float)
-    elif kind == "binary":
-        divide = prm.get("divide", mean_arg)
-        upper = prm.get("upper", mean_arg + sd)
-        lower = prm.get("lower", mean_arg - sd)
-        p = float(ndtr((divide - mean_arg) / sd))
-        h0_mean, h0_var = np.array([p, 1 - p]), np.array([p * (1 - p)] * 2)
-        levels = np.array([lower, upper], dtype=float)
-    elif kind != "force_moments":
-        h0_mean = np.array([0.5, 1 / 12, 0.25])
-        h0_var = np.array([1 / 12, 1 / 180, 3 / 16])
-    if kind == "uniform":
-        lo, hi = prm.get("low", 0.0), prm.get("high", 1.0)
-    elif kind in ("arcsin", "uquad"):
-        h = float(default_halfwidth(kind, sill))
-        lo, hi = prm.get("a", mean_arg - h), prm.get("b", mean_arg + h)
-    stats = []
+    plans = {k: _Plan(k, case["params"][k], mean_arg, sill) for k in kinds}
+    stats = {k: [] for k in kinds}
+    scale = 1 + abs(mean) + abs(trend or 0.0)
     for i in range(nseeds):
         lib(srf, pos, seed=seed0 + i, _tags=tags)
-        ckw = dict(process=process, keep_mean=keep_mean, **lkw)
-        if case["entry"] == "method":
-            out = lib(srf.transform, ALIASES[kind][0], _tags=tags, **ckw)
-        else:
-            out = lib(getattr(tf, WRAP_FN[kind]), srf, _tags=tags, **ckw)
-        out = np.asarray(out, dtype=float)
+        base = np.array(srf.field, dtype=float)
         with np.errstate(all="ignore"):
-            # undo the documented post-processing: out = exp(t [+ mean]) + trend
-            t = out
-            if process:
-                t = np.log(out - trend) - (0.0 if keep_mean else mean)
-            if kind == "force_moments":
-                stats.append([float(np.mean(t)), float(np.var(t))])
+            pre = np.log(base - trend) - (0.0 if keep_mean else mean) if process else base
+            cond = float(np.max(np.abs(pre)) / np.std(pre))  # conditioning of the sample moments
+        for n, kind in enumerate(kinds):
+            if stats[kind] is None:
                 continue
-            if kind in ("discrete", "binary"):
-                dist = np.abs(t[:, None] - levels[None, :])
-                k = np.argmin(dist, axis=1)
-                scale = 1e-9 * (1 + np.max(np.abs(levels)) + abs(mean) + abs(trend or 0.0))
-                if levels.size > 1 and np.min(np.abs(np.diff(np.sort(levels)))) < 10 * scale:
-                    return None, None, None  # classes not distinguishable from the output
-                require(
-                    bool(np.all(dist[np.arange(t.size), k] <= scale)),
-                    f"{kind} on an SRF field: outputs {t.tolist()} are not among the given values {levels.tolist()}",
-                    dict(tags, kind="valueset"),
-                )
-                stats.append([float(np.mean(k == j)) for j in range(levels.size)])
-                continue
-            if kind == "lognormal":
-                u = ndtr((np.log(t) - mean_arg) / sd)
-            elif kind == "zinnharvey":
-                u = ndtr((t - mean_arg) / sd)
-            elif kind == "uniform":
-                u = (t - lo) / (hi - lo)
-            elif kind == "arcsin":
-                u = 2 / np.pi * np.arcsin(np.sqrt(np.clip((t - lo) / (hi - lo), 0, 1)))
-                u = np.where((t < lo - 1e-9 * (hi - lo)) | (t > hi + 1e-9 * (hi - lo)), np.nan, u)
-            elif kind == "uquad":
-                be = (lo + hi) / 2
-                u = 4 / (hi - lo) ** 3 * ((t - be) ** 3 + (be - lo) ** 3)
-            else:  # boxcox: the Box-Cox transformed field is N(mean + shift, sill)
-                lam = prm.get("lmbda", 1)
-                y = np.log(t) if lam == 0 else (t**lam - 1) / lam
-                u = ndtr((y - prm.get("shift", 0) - mean_arg) / sd)
-            require(
-                bool(np.all(np.isfinite(u)) and np.all(u >= -1e-9) and np.all(u <= 1 + 1e-9)),
-                f"{kind} on an SRF field: outputs {t.tolist()} outside the support of the documented target",
-                dict(tags, kind="support"),
-            )
-            stats.append([float(np.mean(u)), float(np.mean((u - 0.5) ** 2)), float(np.mean(u < 0.25))])
-    return np.array(stats, dtype=float), h0_mean, h0_var
+            # process=True may alter the stored source in place (property C20): re-plant it
+            srf.field[...] = base
+            ckw = dict(process=process, keep_mean=keep_mean, store=False, **plans[kind].lkw)
+            t2 = dict(tags, transform=kind)
+            if (case["entry0"] + n) % 2 == 0:
+                out = lib(srf.transform, ALIASES[kind][0], _tags=t2, **ckw)
+            else:
+                out = lib(getattr(tf, WRAP_FN[kind]), srf, _tags=t2, **ckw)
+            out = np.asarray(out, dtype=float)
+            with np.errstate(all="ignore"):
+                # undo the documented post-processing: out = exp(t [+ mean]) + trend
+                t = out
+                if process:
+                    t = np.log(out - trend) - (0.0 if keep_mean else mean)
+                row = plans[kind].stats(t, tags, scale, cond)
+            if row is None:
+                stats[kind] = None
+            else:
+                stats[kind].append(row)
+    return {k: (None if v is None else np.array(v, dtype=float), plans[k]) for k, v in stats.items()}
 
 
 def _zscores(stats, h0_mean, h0_var, npts):
@@ -1469,41 +1538,51 @@ def _zscores(stats, h0_mean, h0_var, npts):
 
 
 def check_stat(case, rec):
-    kind, proc = case["kind"], case["proc"]
-    tags = {"transform": kind, "proc": proc, "kind": "sampled", "model": case["cls"], "nugget": case["nugget"] > 0}
-    rec.label(f"stat:{kind}", f"stat:proc={proc}", "stat:nugget" if case["nugget"] > 0 else "stat:no_nugget")
-    rec.nontrivial(bool(case["params"]) or (proc != "off" and case["mean"] != 0) or case["nugget"] > 0)
+    proc = case["proc"]
+    tags = {"proc": proc, "kind": "sampled", "model": case["cls"], "nugget": case["nugget"] > 0}
+    rec.label(f"stat:proc={proc}", "stat:nugget" if case["nugget"] > 0 else "stat:no_nugget", f"stat:{case['cls']}")
+    rec.nontrivial((proc != "off" and case["mean"] != 0) or case["nugget"] > 0 or case["mean"] != 0 or case["var"] != 1)
     npts = len(case["pos"][0])
-    stats, h0m, h0v = _stat_run(case, case["seed"], case["nseeds"], tags)
-    if stats is None:
-        rec.exclude("stat:indistinguishable_levels")
-        return
-    if kind == "force_moments":
-        sill = case["var"] + case["nugget"]
-        mean_arg = 0.0 if proc == "nokeep" else case["mean"]
-        # exact per realisation (1e-10: log/exp round trip of the processing included)
-        em = float(np.max(np.abs(stats[:, 0] - mean_arg)))
-        ev = float(np.max(np.abs(stats[:, 1] - sill)))
-        rec.discrepancy("stat_force_mean", em, 1e-10 * (1 + abs(mean_arg)))
-        rec.discrepancy("stat_force_var", ev, 1e-10 * sill)
-        require(em <= 1e-10 * (1 + abs(mean_arg)), f"force_moments on SRF: sample mean off by {em:.3g} from the field mean {mean_arg}", dict(tags, moment="mean"))
-        require(ev <= 1e-10 * sill, f"force_moments on SRF: sample variance off by {ev:.3g} from the sill {sill}", dict(tags, moment="var"))
-        return
-    z = _zscores(stats, h0m, h0v, npts)
-    zmax = float(np.max(np.abs(z)))
-    rec.discrepancy("stat_z", zmax, Z_MAX)
-    if zmax <= Z_MAX:
+    sill = case["var"] + case["nugget"]
+    mean_arg = 0.0 if proc == "nokeep" else case["mean"]
+    res = _stat_run(case, case["seed"], case["nseeds"], tags, STAT_KINDS)
+    suspects = []
+    for kind in STAT_KINDS:
+        stats, plan = res[kind]
+        t2 = dict(tags, transform=kind)
+        if stats is None:
+            rec.exclude("stat:indistinguishable_levels")
+            continue
+        if kind == "force_moments":
+            # exact per realisation (1e-10: log/exp round trip of the processing included;
+            # eps * max|x|/sd for a sample with a small spread, cf. check_force)
+            rel = 1e-10 + 32 * EPS * stats[:, 2]
+            em = np.abs(stats[:, 0] - mean_arg) / ((1 + abs(mean_arg)) * rel)
+            ev = np.abs(stats[:, 1] - sill) / (sill * rel)
+            rec.discrepancy("stat_force_mean", float(np.max(em)), 1.0)
+            rec.discrepancy("stat_force_var", float(np.max(ev)), 1.0)
+            require(bool(np.all(em <= 1)), f"force_moments on SRF: sample mean {stats[int(np.argmax(em)), 0]!r} differs from the field mean {mean_arg}", dict(t2, moment="mean"))
+            require(bool(np.all(ev <= 1)), f"force_moments on SRF: sample variance {stats[int(np.argmax(ev)), 1]!r} differs from the sill {sill}", dict(t2, moment="var"))
+            continue
+        z = _zscores(stats, plan.h0_mean, plan.h0_var, npts)
+        zmax = float(np.max(np.abs(z)))
+        rec.discrepancy("stat_z", zmax, Z_MAX)
+        if zmax > Z_MAX:
+            suspects.append((kind, int(np.argmax(np.abs(z))), zmax))
+    if not suspects:
         return
     rec.label("stat:confirmation_run")
-    stats2, h0m, h0v = _stat_run(case, case["seed2"], 4 * case["nseeds"], tags)
-    z2 = _zscores(stats2, h0m, h0v, npts)
-    j = int(np.argmax(np.abs(z)))
-    require(
-        abs(z2[j]) <= Z_MAX,
-        f"{kind} on SRF fields (proc={proc}, mean={case['mean']}, sill={case['var'] + case['nugget']}, params={case['params']}): statistic {j} "
-        f"has mean {stats2.mean(axis=0)[j]:.5g}, documented law gives {h0m[j]:.5g} (z={z[j]:.1f}, confirmed on fresh seeds with z={z2[j]:.1f})",
-        dict(tags, stat=j),
-    )
+    kinds2 = [k for k, _j, _z in suspects]
+    res2 = _stat_run(case, case["seed2"], 4 * case["nseeds"], tags, kinds2)
+    for kind, j, z1 in suspects:
+        stats2, plan = res2[kind]
+        z2 = _zscores(stats2, plan.h0_mean, plan.h0_var, npts)
+        require(
+            abs(z2[j]) <= Z_MAX,
+            f"{kind} on SRF fields (proc={proc}, mean={case['mean']}, sill={sill}, params={case['params'][kind]}): statistic {j} "
+            f"has mean {stats2.mean(axis=0)[j]:.5g}, documented law gives {plan.h0_mean[j]:.5g} (|z|={z1:.1f}, confirmed on fresh seeds with z={z2[j]:.1f})",
+            dict(tags, transform=kind, stat=j),
+        )
 
 
 SUBS = [
@@ -1515,5 +1594,5 @@ SUBS = [
     Sub("discrete", gen_discrete, check_discrete, quick=800, thorough=30000, shards_quick=2, shards_thorough=4),
     Sub("binary", gen_binary, check_binary, quick=400, thorough=10000, shards_quick=1, shards_thorough=2),
     Sub("wrapper", gen_wrapper, check_wrapper, quick=1200, thorough=30000, shards_quick=2, shards_thorough=4),
-    Sub("srf_stat", gen_stat, check_stat, quick=160, thorough=1600, shards_quick=4, shards_thorough=4, shrink_quick=False),
+    Sub("srf_stat", gen_stat, check_stat, quick=48, thorough=1000, shards_quick=4, shards_thorough=4, shrink_quick=False),
 ]
